@@ -88,22 +88,27 @@ Section Spec.
     map (fun i => spec_matvec_entry m x i + nth i loc (c 0)) (seq 0 (length x)).
 
   (* ---- planar.py docstring: y = x + u * act(w^T x + b); u constrained as in get_act_scale:
-       u_hat = u + (m(w^T u) - w^T u) w / ||w||^2   with   m(a) = -1 + log(1 + softplus(a))
+       u_hat = u + (m(w^T u)/k - w^T u) w / ||w||^2,   m(a) = -1 + log(1 + softplus(a)),
+       k = 1 for tanh, k = max(1, negative_slope) for leaky relu ("leaky relu has slopes 1 and
+       negative_slope: 1 + slope * w^T u > 0 is needed for both").
      (Rezende & Mohamed 2015, appendix A.1, has m(a) = -1 + log(1 + e^a) = -1 + softplus(a); the
-     code nests one more log(1 + .).  Both give w^T u_hat = m(w^T u) > -1, the invertibility
-     condition the docstring names; the spec follows the code's m and LeafSpecP proves that
-     condition.) ---- *)
+     code nests one more log(1 + .).  Both give m > -1; the spec follows the code's m and
+     LeafSpecP proves  w^T u_hat = m(w^T u)/k  and the invertibility conditions
+     0 < 1 + w^T u_hat,  0 < 1 + s w^T u_hat.) ---- *)
   Definition spec_inner (a b : list A) : A := sigma (length a) (fun j => nth j a (c 0) * nth j b (c 0)).
   Definition spec_m (a : A) : A := c (-1) + n_log O (c 1 + spec_softplus a).
-  Definition spec_planar_u (w u : list A) : list A :=
+  Definition spec_k (ns : option A) : A :=
+    match ns with None => c 1 | Some s => if n_leb O s (c 1) then c 1 else s end.
+  Definition spec_planar_u (ns : option A) (w u : list A) : list A :=
     let wtu := spec_inner w u in
-    map (fun i => nth i u (c 0) + (spec_m wtu - wtu) * nth i w (c 0) / spec_inner w w) (seq 0 (length w)).
+    map (fun i => nth i u (c 0) + (spec_m wtu / spec_k ns - wtu) * nth i w (c 0) / spec_inner w w)
+        (seq 0 (length w)).
   (* leaky relu with negative slope s:  max(0, z) + s * min(0, z) *)
   Definition spec_leaky_relu (s z : A) : A := nmax O (c 0) z + s * nmin O (c 0) z.
   Definition spec_act (ns : option A) (z : A) : A :=
     match ns with None => spec_tanh z | Some s => spec_leaky_relu s z end.
   Definition spec_planar (ns : option A) (w u : list A) (b : A) (x : list A) : list A :=
-    let uh := spec_planar_u w u in
+    let uh := spec_planar_u ns w u in
     let a := spec_act ns (spec_inner w x + b) in
     map (fun i => nth i x (c 0) + nth i uh (c 0) * a) (seq 0 (length x)).
 End Spec.
